@@ -243,7 +243,7 @@ _POOLS = [
 
 
 def _events(rng, n, keys_pools, base, unit, contiguous):
-    base, unit, zone = maybe_zone(rng, base, unit)
+    base, unit, zone = maybe_zone(rng, base, unit, 0.08)
     specs = []
     pos = 0
     huge = not contiguous and rng.random() < 0.03
@@ -270,7 +270,9 @@ def _events(rng, n, keys_pools, base, unit, contiguous):
             dur -= dur % 1000
             pos += dur
         else:
-            pos = rng.randrange(0, 50) * unit
+            # (around a clock change the events crowd into the hours next to it: there the order of wall-clock readings and the
+            # order of instants differ)
+            pos = rng.randrange(0, 12 if zone and i % 4 else 50) * unit
         specs.append(dict(ts=ts, dur=dur, data=data, **({"id": (i if rng.random() < 0.8 else rng.randrange(0, 3))} if rng.random() < 0.5 else {}),
                           **({"zone": zone} if zone and rng.random() < 0.7 else {})))
     if specs and rng.random() < 0.3:
